@@ -1,4 +1,6 @@
 (* REGENERATED from src/mxlpy/model.py by harness/c01.py; do not edit.
    true = the method body is statement-for-statement the one modelled in Query.v *)
-Record query_facts := mkQueryFacts { qf_call : bool; qf_rhs : bool; qf_get_args : bool }.
-Definition gen_query_facts : query_facts := mkQueryFacts true true true.
+Record query_facts := mkQueryFacts { qf_call : bool; qf_rhs : bool; qf_get_args : bool;
+  qf_public : bool (* get_args / get_fluxes / get_right_hand_side / get_stoichiometries / get_initial_conditions: QueryTC.v *);
+  qf_time_course : bool (* _get_args_time_course / get_args_time_course / get_fluxes_time_course / get_right_hand_side_time_course *) }.
+Definition gen_query_facts : query_facts := mkQueryFacts true true true true true.
